@@ -333,6 +333,9 @@ def run_check(pid, spec, tier, seed, replay=None, keep=False):
             env["GORACE"] = "halt_on_error=0 log_path=%s/race-%s history_size=5" % (outdir, jn)
         if j.gomaxprocs:
             env["GOMAXPROCS"] = str(j.gomaxprocs)
+        # soft heap limit per child (the collector works harder near it, nothing fails): up to 16
+        # children run side by side; race/asan builds keep their shadow memory outside the Go heap
+        env["GOMEMLIMIT"] = os.environ.get("VERIF_GOMEMLIMIT", "2200MiB")
         env.update(j.env)
         to = j.timeout[ti]
         binp = bins[(j.pkg, j.race, j.asan, j.extra_tags)]
